@@ -4,14 +4,21 @@ from hutil import S, unS, err
 
 MODEL = "C11"
 PROP_FILES = ["Props/C11.v"]
-RULE = ("(a) messages built from a grammar of nested named, inline and unknown tags, bare '<' '>', newlines, non-ASCII (incl. the "
-        "four code points that fold into a-z) plus a malformed stream (unbalanced, unknown colours), each formatted by a fresh ANSI "
-        "and a fresh plain formatter; (b) every style over 10 fg x 10 bg x 2^7 attribute sets (quick) / all 18 x 18 x 2^7 "
-        "(thorough) through the three routes (style set, add_style, per-call style); (c)+(d) programs of writes through the four "
-        "writing methods of both outputs inside nested set/increment indentation scopes at IO and single-output level (depth <= 4) "
-        "left normally or by an exception, on ANSI/plain/null formatters, ANSI and plain streams, plain outputs and section "
-        "outputs; non-trivial = a message with >= 1 recognised tag / a style with >= 1 code / a program with >= 1 scope and >= 1 "
-        "write; distinct by request")
+RULE = ("(a) messages built from a grammar of nested named, inline (also foreground + background + options together) and unknown "
+        "tags, bare '<' '>', newlines, non-ASCII (incl. the four code points that fold into a-z) plus a malformed stream (unbalanced, "
+        "unknown colours), each formatted by a fresh ANSI and a fresh plain formatter AND through IO.format(string, style=) / "
+        "Output.format / SectionOutput.format with the per-call style and IO / Output.remove_format; (b) every style over 10 fg x 10 "
+        "bg x 2^7 attribute sets (quick) / all 18 x 18 x 2^7 (thorough) through the three routes (style set, add_style, per-call "
+        "style; the per-call route also through the I/O); histories of per-call styles on one formatter; histories on ONE "
+        "decorating and ONE undecorated formatter: render, add_style, render again with format and remove_format, a style "
+        "registered a second time under the same tag (a tag is text before it is registered and markup with exactly the codes of "
+        "the style registered last afterwards); (c)+(d) programs of writes through the four writing methods of both outputs - "
+        "through the I/O's methods and through the outputs' own - inside nested set/increment indentation scopes at IO and "
+        "single-output level (depth <= 4) left normally, by an Exception or by a KeyboardInterrupt / SystemExit (a BaseException "
+        "only), with sections taken inside scopes (io.section(): the body runs on a section that starts with the indentation in "
+        "force), on ANSI/plain/null formatters, ANSI and plain streams, plain outputs and section outputs; texts include lines of "
+        "white space only (not empty: indented); non-trivial = a message with >= 1 recognised tag / a style with >= 1 code / a "
+        "history with an add_style / a program with >= 1 scope and >= 1 write; distinct by request")
 TRUSTED = ["pastel (external library) is modelled by hand in Model/Markup.v from its source; the model is compared with the "
            "installed pastel on every run through clikit's formatters"]
 ASSUMPTIONS = ["flags None, outputs not quiet (gating is C10); a section output is alone on its stream (stacking is C15)"]
@@ -45,7 +52,7 @@ def expected_codes(st):
 
 # ---- message grammar: returns (markup, plain or None when the expected plain text is not known) ----
 WORDS = ["a", "bc", " ", "x y", "\n", "l1\nl2", "é中", "", "1", "=", ";", "-", "/"]
-DIRTY = ["<", ">", "< ", "<<", "a<b", "</", "<1>", "< info>", "<info", "ı", "ſ"]
+DIRTY = ["<", ">", "< ", "<<", "a<b", "</", "<1>", "< info>", "<info", "ı", "ſ", "\\<", "a\\<b", "\\<info>", "\\"]
 NAMED = list(DEFAULT_TAGS)
 INLINE = ["fg=red", "bg=blue", "fg=green;bg=black", "options=bold", "options=bold,underline", "fg=cyan;options=italic,bold",
           "FG=RED", "fg=white;", "opt=blink", "options=reverse;options=conceal",
